@@ -50,6 +50,9 @@ def check(repo: Repo, rep, tier):
 
     range_prov(repo, rep)
     char_units(repo, rep)
+    from .C12 import codegen_text
+
+    codegen_text(repo, rep)
 
 
 def role(e: ast.AST) -> str:
